@@ -12,6 +12,9 @@ import subprocess
 ROOT = os.path.dirname(os.path.dirname(os.path.abspath(__file__)))
 
 MAP = [
+    ("parse_sec checks the length that goes with the SEC prefix", "C03", "65-byte strings 02/03 || 00*32 || x parsed as the compressed key of x (the 64 payload bytes were read as one integer); 33 bytes with prefix 04 likewise unchecked"),
+    ("NetworkEnvelope.parse strips only the trailing zero padding", "C19", "a command with a leading NUL byte did not round-trip (strip() removed NULs on both sides; six NULs + 'verack' parsed as verack)"),
+    ("default version nonce is drawn from [0, 2^64 - 1]", "C19", "VersionMessage() drew its nonce with randint(0, 2**64): the inclusive upper bound does not fit the 8-byte field (OverflowError; found by stubbing randint to return its bounds)"),
     ("SLIP39 split with threshold 1 returns one share per member", "C15", "1-of-n split (n >= 2) returned a single share although its header says 1 of n; SLIP-0039 SplitSecret gives every member the secret"),
     ("check_pow rejects a compact target that overflows 256 bits", "C17", "headers whose bits overflow 256 bits (exponent >= 33 with a mantissa that does not fit, e.g. 0x23000001) passed check_pow with any hash (CheckProofOfWork: fOverflow)"),
     ("BIP158 filter is built from the set of elements", "C18", "encode_gcs over an element list with a repeated script used N = len(list): wrong N, F, range values and filter bytes (BIP158 vector 'Duplicate pushdata')"),
